@@ -726,13 +726,16 @@ impl Parser {
     fn parse_func_scalar(&mut self) -> Result<Option<Expr>, String> {
         let mut lexem = self.next_lexem();
         let mut minus = false;
+        let mut plus = false;
 
         if let Some(Lexem::ArithmeticOperator(ref s)) = lexem {
             if s == "-" {
                 minus = true;
                 lexem = self.next_lexem();
             } else if s == "+" {
-                // nop
+                // an explicit plus sign: the operand follows (the sign is kept on literals, `+1` is a day offset)
+                plus = true;
+                lexem = self.next_lexem();
             } else {
                 self.drop_lexem();
             }
@@ -764,7 +767,10 @@ impl Parser {
                     }
                 }
 
-                let mut expr = Expr::value(s.to_string());
+                let mut expr = Expr::value(match plus {
+                    true => format!("+{}", s),
+                    false => s.to_string(),
+                });
                 expr.minus = minus;
 
                 Ok(Some(expr))
